@@ -276,7 +276,7 @@ def match_known(sig, known):
     return None
 
 
-def write_replay(prop_id, rec):
+def write_replay(prop_id, rec, name=None):
     d = os.path.join(VERIF, "replays", prop_id)
     os.makedirs(d, exist_ok=True)
     body = {
@@ -286,7 +286,7 @@ def write_replay(prop_id, rec):
         "case": rec["case"],
         "replay_cmd": "./check %s --replay <this file>" % prop_id,
     }
-    name = digest(json.dumps(body["signature"], sort_keys=True))[:16] + ".json"
+    name = name or (digest(json.dumps(body["signature"], sort_keys=True))[:16] + ".json")
     path = os.path.join(d, name)
     with open(path, "w") as f:
         json.dump(body, f, indent=1, sort_keys=True)
@@ -346,6 +346,7 @@ def finish(ctx):
         seen_known.setdefault(e["id"], [e, 0, rec])
         seen_known[e["id"]][1] += n
     for fid, (e, n, rec) in seen_known.items():
+        write_replay(ctx.prop_id, rec, name="known_%s.json" % fid)
         print("KNOWN-FINDING: property=%s %s [%s; %d occurrence(s) this run; e.g. %s]" % (ctx.prop_id, e["what"], fid, n, rec["msg"][:160]))
     cov = {
         "evaluations": int(ctx.evaluations),
